@@ -371,8 +371,25 @@ def check_compare(ctx: Ctx, rep: Report, fn: FuncInfo) -> None:
         return
     digest_fn = next(c for c in ctx.r.callees(fn, digest_call) if isinstance(c, FuncInfo))
     bound = bind_call_args(digest_call, digest_fn.params, skip_self=False)
-    wanted = {"auth_key": "auth_key", "encoded_message": "data", "engine_id": "engine_id"}
-    okb = all(k in bound and norm(bound[k]) == v for k, v in wanted.items())
+    # roles of the helper's parameters are read off its body: hmac.new(<hasher>(<key>, <engine>), <message>, digestmod=<method>)
+    ddefs0 = ctx.defs(digest_fn)
+    role: Dict[str, str] = {}
+    for n in own_nodes(digest_fn.node):
+        if isinstance(n, ast.Call) and norm(n.func) in ("hmac.new", "hmac.HMAC"):
+            hb = bind_call_args(n, ["key", "msg", "digestmod"], skip_self=False)
+            if isinstance(hb.get("msg"), ast.Name):
+                role["message"] = hb["msg"].id
+            kexp0 = ddefs0.expand(hb["key"]) if "key" in hb else None
+            if isinstance(kexp0, ast.Name):  # parameter rebound to the localised key
+                for v in ddefs0.all_values(kexp0.id):
+                    if isinstance(v, ast.Call) and len(v.args) == 2:
+                        kexp0 = v
+            if isinstance(kexp0, ast.Call) and len(kexp0.args) == 2 and all(isinstance(a, ast.Name) for a in kexp0.args):
+                role["key"], role["engine"] = kexp0.args[0].id, kexp0.args[1].id
+    # the closure implements TAuth: (auth_key, data, [received_digest,] engine_id)
+    cparams = fn.params
+    wanted = {role.get("key"): cparams[0], role.get("message"): cparams[1], role.get("engine"): cparams[-1]}
+    okb = None not in wanted and all(k in bound and norm(bound[k]) == v for k, v in wanted.items())
     rep.check(okb, "C09-R3", site, "the digest is computed from the key, the message bytes and the engine id given by the caller", f"{ {k: norm(v) for k, v in bound.items()} }", key=f"{fn.key}|digest-args")
     # get_message_digest: HMAC keyed by the localised key, truncated to 12
     ddefs = ctx.defs(digest_fn)
@@ -396,10 +413,11 @@ def check_compare(ctx: Ctx, rep: Report, fn: FuncInfo) -> None:
         key = b.get("key")
         # the key must be the localised key: hasher(auth_key, engine_id)
         kexp = norm(key) if key is not None else ""
-        localised = any(
-            isinstance(v, ast.Call) and isinstance(v.func, ast.Name) and v.func.id == digest_fn.params[0] and [norm(a) for a in v.args] == ["auth_key", "engine_id"]
-            for v in ddefs.all_values("auth_key")
+        kp, ep, mp = role.get("key"), role.get("engine"), role.get("message")
+        localised = kp is not None and any(
+            isinstance(v, ast.Call) and isinstance(v.func, ast.Name) and v.func.id == digest_fn.params[0] and [norm(a) for a in v.args] == [kp, ep]
+            for v in ddefs.all_values(kp)
         )
-        key_ok = (kexp == "auth_key" and localised) or kexp == f"{digest_fn.params[0]}(auth_key, engine_id)"
-        okh = key_ok and norm(b.get("msg", ast.Constant(None))) == "encoded_message" and norm(b.get("digestmod", ast.Constant(None))) == digest_fn.params[1]
+        key_ok = (kexp == kp and localised) or kexp == f"{digest_fn.params[0]}({kp}, {ep})"
+        okh = key_ok and mp is not None and norm(b.get("msg", ast.Constant(None))) == mp and norm(b.get("digestmod", ast.Constant(None))) == digest_fn.params[1]
     rep.check(okh, "C09-R3", digest_fn.site(), "HMAC over the message bytes, keyed with hasher(auth_key, engine_id) (the localised key), hash selected by the plug-in", key=f"{digest_fn.key}|hmac-args")
